@@ -12,17 +12,18 @@ CONSTANTS
   DMax0 = 12
   DMin0 = 2
   MaxFail = 1
-  MaxNaN = 1
-  MaxCrit = 1
+  MaxNaN = 0
+  MaxCrit = 0
   SaveEverys <- MC_SaveEverys
-  SkipMode = "lookahead"
+  SkipMode = "advance"
   Classes <- MC_Classes
 INVARIANT TypeOK
 INVARIANT ExactlyOnce
+INVARIANT T0NeverFires
 INVARIANT NeverTwice
 INVARIANT NeverEarlyOrLate
 INVARIANT DisabledNeverFires
-INVARIANT ExpectedStatus
+INVARIANT ExpectedStatusExceptT0
 INVARIANT SuccessIffAtTf
 INVARIANT StepBound
 PROPERTY NoStepCrossesSwitch
